@@ -8,7 +8,7 @@ from .. import world as W
 from .common import Stack, sym_payload
 
 ADDR = {'A': 0x10, 'B': 0x20, 'C': 0x30}
-OUTCOMES = ['clean', 'frame_lost', 'responder_aborts', 'originator_aborts', 'responder_silent', 'originator_silent']
+OUTCOMES = ['clean', 'frame_lost', 'responder_aborts', 'originator_aborts', 'responder_silent', 'originator_silent', 'surplus_cts']
 
 
 def abort_frame(dll, src, dst, pgn, reason=2, session=0):
@@ -42,10 +42,10 @@ def h_history(ex, dll, steps, windows=(2, 2, 2), explore=False, fixed=None):
             sel = ex.fresh_int('outcome%d' % i, 0, len(OUTCOMES) - 1)
             sel = int(sel)          # case split by the solver
             outcome = OUTCOMES[sel]
-        if kind != 'p2p' and outcome in ('responder_aborts', 'originator_aborts', 'responder_silent'):
+        if kind != 'p2p' and outcome in ('responder_aborts', 'originator_aborts', 'responder_silent', 'surplus_cts'):
             outcome = 'clean'
         if fixed is None:
-            k = ex.fresh_int('k%d' % i, 0, 2 * npk + 3) if outcome != 'clean' else 0
+            k = ex.fresh_int('k%d' % i, 0, 2 * npk + 3) if outcome not in ('clean', 'surplus_cts') else 0
         base = len(w.log)
         pgn = 0xD000 if kind == 'p2p' else 0xFE10
         hook = None
@@ -55,6 +55,24 @@ def h_history(ex, dll, steps, windows=(2, 2, 2), explore=False, fixed=None):
             st[d].node.silent_from = st[d].node.sent + k
         elif outcome == 'originator_silent':
             st[s].node.silent_from = st[s].node.sent + k
+        elif outcome == 'surplus_cts':
+            # after the last data packet the responder sends one more (non-hold) CTS and falls silent
+            cnt = {'dt': 0}
+
+            def hook(f, s=s, d=d, npk=npk, pgn=pgn, cnt=cnt):
+                fld = ids.id_fields(f['id'])
+                if f['src'] != s or not bool(fld['pf'] == (0xEB if dll == 'j1939-21' else 0x4E)) or hook_done:
+                    return
+                cnt['dt'] += 1
+                if cnt['dt'] == npk:
+                    hook_done.append(1)
+                    st[d].node.silent_from = st[d].node.sent
+                    if dll == 'j1939-21':
+                        w.inject(st[s].node, tp21.can_id(7, 0xEC, ADDR[s], ADDR[d]), tp21.cts(1, npk, pgn))
+                    else:
+                        w.inject(st[s].node, tp21.can_id(7, 0x4D, ADDR[s], ADDR[d]), tp22.cm_frame(tp22.CTS, int(f['data'][0]) >> 4, 0xFFFFFF, npk, 1, 0, pgn), fd=True)
+            hook_done = []
+            w.frame_hooks.append(hook)
         elif outcome in ('responder_aborts', 'originator_aborts'):
             frm, to = (d, s) if outcome == 'responder_aborts' else (s, d)
 
